@@ -44,3 +44,21 @@ Example C07_example :
   = ([104; 116; 116; 112], [117; 64; 104; 58; 56], [47; 112], [113], [102]).
 Proof. reflexivity. Qed.
 Print Assumptions C07_example.
+
+(** user, password, host and port are the split of the authority at its last '@', the
+    first ':' of the userinfo and the ':' after the host or the closing ']' (spec_auth_split,
+    Preds/P07.v - the same definition the check applies to the implementation's stored
+    authority), with an empty user or host reported as absent and the port text read as a
+    decimal number in 0..65535 (anything else: ValueError) - for every authority string *)
+From Yarl Require Import Preds.P07 Proofs.AuthProofs.
+Theorem C07_authority_split : forall n : str,
+  let '(us, pw, h, pt) := spec_auth_split n in
+  split_netloc n =
+    match digits_value pt with
+    | Some None => Ok (match us with Some u => or_none u | None => None end, pw, or_none h, None)
+    | Some (Some v) => if (v <=? 65535)%N then Ok (match us with Some u => or_none u | None => None end, pw, or_none h, Some v)
+                       else Err ValueError
+    | None => Err ValueError
+    end.
+Proof. exact split_netloc_is_auth_split. Qed.
+Print Assumptions C07_authority_split.
